@@ -29,7 +29,7 @@ ASSUMPTIONS = ['faults are injected at the open() boundary of the handlelimiter 
                'gzip and the file system are trusted']
 MIN_NONTRIVIAL = {'quick': 400, 'thorough': 20000}
 REQUIRED_MONITORS = ['inj:open_attempts', 'inj:faults_fired', 'hist:writes', 'oracle:files_compared', 'inj:emfile_fired',
-                     'inj:transient_fired', 'inj:permanent_fired', 'reopen_append', 'rlimit:real_emfile_seen', 'split:bams_compared', 'inj:errno:emfile:ENFILE', 'inj:errno:transient:EIO', 'inj:errno:transient:None', 'hist:stale_files_present', 'hist:closed_in_between_and_used_again']
+                     'inj:transient_fired', 'inj:permanent_fired', 'reopen_append', 'rlimit:real_emfile_seen', 'split:bams_compared', 'inj:errno:emfile:ENFILE', 'inj:errno:transient:EIO', 'inj:errno:transient:None', 'hist:stale_files_present', 'hist:closed_in_between_and_used_again', 'paths:bare_file_names']
 EXHAUSTIVE = {'quick': False, 'thorough': True}
 SHARD_TIMEOUT = {'quick': 600, 'thorough': 7200}
 
@@ -96,7 +96,7 @@ class Injector:
 
         def opener(file, mode='r', *a, **k):
             if isinstance(file, (str, bytes, os.PathLike)) and os.path.abspath(os.fsdecode(file)).startswith(inj.root):
-                path = os.fsdecode(file)
+                path = os.path.abspath(os.fsdecode(file))       # bare file names of the working directory are the same files
                 inj._maybe_fail(path, mode)
                 return inj.wrap(inj.real_open(file, mode, *a, **k))
             return inj.real_open(file, mode, *a, **k)
@@ -116,7 +116,7 @@ def read_back(path, method):
         return f.read()
 
 
-def execute(hl_mod, d, seq, maxHandles, pruneEvery, method, plan, continue_after_raise=True, stale=(), close_at=()):
+def execute(hl_mod, d, seq, maxHandles, pruneEvery, method, plan, continue_after_raise=True, stale=(), close_at=(), bare=False):
     """Runs one write history against a fresh HandleLimiter under a fault plan.
     Returns (inj, history{path:[data]}, raised[(idx, path, exc, legit)], contents{path:str|None}, error or None)"""
     inj = Injector(dict(plan, permanent=os.path.join(d, plan['permanent']) if plan.get('permanent') else None))
@@ -138,10 +138,14 @@ def execute(hl_mod, d, seq, maxHandles, pruneEvery, method, plan, continue_after
     raised = []
     import io
     import contextlib
+    cwd0 = os.getcwd()
     try:
+        if bare:
+            os.chdir(d)     # the writer is handed bare file names of the working directory (a tool run from inside its output folder)
         h = hl_mod.HandleLimiter(maxHandles=maxHandles, pruneEvery=pruneEvery, compressionLevel=1)
         for idx, (fname, data) in enumerate(seq):
             path = os.path.join(d, fname)
+            wpath = fname if bare else path
             if idx in close_at:
                 # the writer is closed in between (end of a lane, a flush requested by the caller) and used again: what was written stays
                 with contextlib.redirect_stdout(io.StringIO()):
@@ -149,7 +153,7 @@ def execute(hl_mod, d, seq, maxHandles, pruneEvery, method, plan, continue_after
             nf = len(inj.fired)
             try:
                 with contextlib.redirect_stdout(io.StringIO()):
-                    h.write(path, data, method=method)
+                    h.write(wpath, data, method=method)
                 hist.setdefault(path, []).append(data)
             except Exception as ex:
                 # legit iff the last fired fault happened with no live handle at all (everything else closed)
@@ -160,6 +164,7 @@ def execute(hl_mod, d, seq, maxHandles, pruneEvery, method, plan, continue_after
         with contextlib.redirect_stdout(io.StringIO()):
             h.close()
     finally:
+        os.chdir(cwd0)
         inj.uninstall()
     contents = {}
     err = None
@@ -277,13 +282,16 @@ def run_case(case):
         close_at = set(r.sample(range(1, len(seq)), min(len(seq) - 1, r.randint(1, 3)))) if case['i'] % 3 == 1 and len(seq) > 1 else set()
         settings['closed_before_writes'] = sorted(close_at)
         acc.count('hist:closed_in_between_and_used_again', 1 if close_at else 0)
+        bare = case['i'] % 4 == 2
+        settings['bare_file_names_in_the_working_directory'] = bare
+        acc.count('paths:bare_file_names', 1 if bare else 0)
         for pi, plan in enumerate(plans):
             if plan:
                 plan['errnos'] = {'emfile': r.choice(['EMFILE', 'EMFILE', 'ENFILE']),
                                   'transient': r.choice(['EMFILE', 'EMFILE', 'ENFILE', 'EIO', 'EINTR', 'ENOMEM', 'EAGAIN', None]),
                                   'permanent': r.choice(['EMFILE', 'EACCES', 'ENOSPC'])}
             with Scratch('c19') as d:
-                inj, hist, raised, contents, err = execute(hl_mod, d, seq, settings['maxHandles'], settings['pruneEvery'], settings['method'], plan, stale=stale, close_at=close_at)
+                inj, hist, raised, contents, err = execute(hl_mod, d, seq, settings['maxHandles'], settings['pruneEvery'], settings['method'], plan, stale=stale, close_at=close_at, bare=bare)
                 if decide(acc, seq, settings, plan, inj, hist, raised, contents, err, d):
                     acc.distinct += 1
         acc.sample = {'kind': case['kind'], 'writes': len(seq), 'files': nfiles, 'settings': settings, 'fault_plans': len(plans),
